@@ -162,6 +162,29 @@ def gen_comp(rng, name: str, pool: typing.List[Comp], level: int, force_union: t
         t = gen_field_type(rng, pool if level > 0 else [], c.union, per, want_comp=(i == want))
         fname = '' if t.kind == 'void' else 'f%d' % i
         c.fields.append((fname, t))
+    # messages that END in a byte-aligned integer of non-standard width (uint24, int33, uint40 ...): the place where a store
+    # of the whole storage variable instead of ceil(bits/8) bytes runs past an exactly sized buffer
+    if rng.random() < 0.35:
+        w = rng.choice([24, 40, 48, 56, 17, 33, 9, 63, 20])
+        kind = rng.choice(['uint', 'uint', 'int'])
+        mode = rng.choice(['', 'saturated ', 'truncated ']) if kind == 'uint' else rng.choice(['', 'saturated '])
+        tail = T('%s%s%d' % (mode, kind, w), 1, w, kind)
+        if rng.random() < 0.3:
+            tail = T('%s[%d]' % (tail.text, rng.choice([1, 2, 3])), 1, 0, 'farr:' + kind)
+            tail.max_bits = w * int(tail.text.split('[')[1][:-1])
+        if c.union:
+            c.fields[rng.randrange(len(c.fields))] = ('f%dt' % len(c.fields), tail)       # the tag is 8 bits: the option is aligned
+        else:
+            fixed = all(t.kind in ('bool', 'void', 'uint', 'int', 'float') or
+                        (t.kind.startswith('farr:') and t.kind.split(':')[1] in ('bool', 'byte', 'uint', 'int', 'float')) for _, t in c.fields)
+            if level > 0 and pool and rng.random() < 0.5:
+                c.fields.append(('f%da' % len(c.fields), rng.choice(pool).ref()))           # a composite ends byte aligned
+                c.fields.append(('f%dt' % len(c.fields), tail))
+            elif fixed:
+                off = sum(t.max_bits for _, t in c.fields)
+                if off % 8:
+                    c.fields.append(('', T('void%d' % (8 - off % 8), 1, 8 - off % 8, 'void')))
+                c.fields.append(('f%dt' % len(c.fields), tail))
     c.depth = max([t.depth for _, t in c.fields] or [0])
     c.body_max = body_max(c.union, c.fields) if c.fields else 0
     c.sealed = rng.random() < 0.5
